@@ -136,7 +136,54 @@ pub enum Focus {
     Long,
 }
 
+/// Hundreds of calls in flight at once, most answered early, about a hundred kept waiting; then
+/// one more call is made while those are still outstanding, and finally they are answered: the
+/// in-flight table grows past whatever its housekeeping thresholds are, shrinks far below them,
+/// and is used again before the rest is answered.
+fn gen_mega(rng: &mut Rng) -> ClientScn {
+    let n = rng.range(540, 720) as usize;
+    let survivors = rng.range(60, 110) as usize;
+    let late = rng.range(1, 4) as usize;
+    let mut calls = Vec::new();
+    let mut plans = Vec::new();
+    for i in 0..n + late {
+        calls.push(CallScn {
+            handle: 0,
+            start_ms: if i < n { 0 } else { 20 + (i - n) as u64 },
+            deadline: Dl::Ms(10_000),
+            trace: rng.next() | 1,
+            sampled: false,
+            abandon: None,
+        });
+        // the k-th request to reach the peer
+        let when = if i < n - survivors { When::After(rng.range(2, 6)) } else if i < n { When::After(60) } else { When::After(2) };
+        plans.push(vec![ReplyScn { when, id: IdKind::Same, err: false }]);
+    }
+    ClientScn {
+        max_in_flight: 1000,
+        pending_buf: *rng.pick(&[100usize, 1000]),
+        link: LinkCfg { cap: 0, coupled: true, sticky: true, faults: vec![], explicit_flush: false },
+        stalls: vec![],
+        handles: 1,
+        calls,
+        plans,
+        unsolicited: vec![],
+        drop_handles_at: None,
+        kill_dispatch_at: None,
+        peer_eof_at: None,
+        subscriber: 0,
+        long: false,
+        jumps: vec![],
+        preempt_permille: 0,
+        spurious_permille: 0,
+        waker_churn: false,
+    }
+}
+
 pub fn gen(rng: &mut Rng, focus: Focus) -> ClientScn {
+    if focus == Focus::General && rng.chance(2) {
+        return gen_mega(rng);
+    }
     // a burst: dozens of calls queued before the dispatch first runs, with room for all of them
     // (one poll of the dispatch then has dozens of things to do)
     let burst = focus == Focus::General && rng.chance(30);
